@@ -105,6 +105,71 @@ Proof.
   apply (entry_accepted_sound _ _ _ _ H1 _ H2).
 Qed.
 
+(* ---- C15: Transfer leaves its source alone ----
+   the receiver of Stack.Transfer is the source; everything done to the
+   destination happens in calls on another object (tagged).  No store into
+   the source and no lock operation on it, on any path, for any destination. *)
+Definition is_lockev (e : ev) : bool := match e with ELock | EUnlock | EMLock | EMUnlock => true | _ => false end.
+Definition bad_src (other : bool) (e : ev) : bool := negb other && (is_inst_write e || is_lockev e).
+Definition U_src := Eval vm_compute in refine 80 ir_table bad_src env_init [].
+Definition is_transfer (e : entry) : bool := (en_recv e =? rc_Stack)%N && bytes_eqb (en_name e) (B "Transfer").
+
+Definition transfer_src_check : bool :=
+  post_fixpoint ir_table bad_src env_init U_src &&
+  forallb (fun e => negb (is_transfer e) || entry_accepted ir_table U_src e) ir_entries &&
+  existsb is_transfer ir_entries.
+
+Lemma transfer_source_static :
+  transfer_src_check = true ->
+  (exists e, In e ir_entries /\ is_transfer e = true) /\
+  forall e, In e ir_entries -> is_transfer e = true -> entry_ok ir_table bad_src env_init e.
+Proof.
+  unfold transfer_src_check. intros H. apply andb_true_iff in H as [H H3]. apply andb_true_iff in H as [H1 H2].
+  split.
+  - apply existsb_exists in H3 as (e & He & Ht). exists e. auto.
+  - rewrite forallb_forall in H2. intros e He Ht. specialize (H2 e He). rewrite Ht in H2. cbn in H2.
+    apply (entry_accepted_sound _ _ _ _ H1 _ H2).
+Qed.
+
+(* ---- C13 / C18: only the content mutators can change content ----
+   no other exported method - in particular no option switch and no setter of
+   a string-valued or closure-valued setting - stores into a slice header, an
+   element slot, a part of a Condition or a handle, of the receiver or of any
+   nested object, on any path *)
+Definition is_content_store (e : ev) : bool :=
+  match e with EWrite LHdr | EWrite LSlot | EWrite LCond | EWrite LHandle => true | _ => false end.
+Definition bad_content (other : bool) (e : ev) : bool := is_content_store e.
+Definition content_mutators : list (N * bytes) :=
+  map (fun n => (rc_Stack, B n)) ["Push"; "Pop"; "Insert"; "Remove"; "Replace"; "Swap"; "Reverse"; "Reset";
+                                   "Defrag"; "Reveal"; "Transfer"]%string ++
+  [(rc_StackPtr, B "Marshal"); (rc_StackPtr, B "Free"); (rc_CondPtr, B "Init"); (rc_CondPtr, B "Free");
+   (rc_Cond, B "SetKeyword"); (rc_Cond, B "SetOperator"); (rc_Cond, B "SetExpression")].
+Definition U_content := Eval vm_compute in refine 80 ir_table bad_content env_init [].
+
+Definition content_check : bool :=
+  post_fixpoint ir_table bad_content env_init U_content &&
+  forallb (fun e => negb (is_inst_class e) || named content_mutators e || entry_accepted ir_table U_content e) ir_entries.
+
+Lemma content_untouched_static :
+  content_check = true ->
+  forall e, In e ir_entries -> is_inst_class e = true -> named content_mutators e = false ->
+            entry_ok ir_table bad_content env_init e.
+Proof.
+  unfold content_check. intros H. apply andb_true_iff in H as [H1 H2]. rewrite forallb_forall in H2.
+  intros e He Hc Hn. specialize (H2 e He). rewrite Hc, Hn in H2. cbn in H2.
+  apply (entry_accepted_sound _ _ _ _ H1 _ H2).
+Qed.
+
+(* the setters the two properties name are covered (not among the exceptions) *)
+Definition option_setters : list bytes :=
+  map B ["SetParen"; "Paren"; "SetFold"; "Fold"; "SetNoPadding"; "NoPadding"; "SetLeadOnce"; "LeadOnce";
+         "SetNegativeIndices"; "NegativeIndices"; "SetForwardIndices"; "ForwardIndices"; "SetNoNesting"; "NoNesting";
+         "SetReadOnly"; "ReadOnly"; "SetFIFO"; "SetMutex"; "SetID"; "SetCategory"; "SetDelimiter"; "SetSymbol";
+         "SetEncap"; "SetAuxiliary"; "SetLogLevel"; "UnsetLogLevel"; "SetLogger"; "SetErr"]%string.
+Definition option_setters_covered : bool :=
+  forallb (fun q => existsb (fun e => (en_recv e =? rc_Stack)%N && bytes_eqb (en_name e) q &&
+                                      negb (named content_mutators e)) ir_entries) option_setters.
+
 (* ---- C11: queries ---- *)
 (* the declared mutator list: everything NOT listed here is a query and must
    not store anything (into the receiver or any nested object) nor touch the
